@@ -92,7 +92,7 @@ class DashValidator(DashElement):
         if self.mode is None:
             if self.xml.get("type") == "dynamic":
                 self.mode = 'live'
-            elif "urn:mpeg:dash:profile:isoff-on-demand:2011" in self.xml.get('profiles'):
+            elif "urn:mpeg:dash:profile:isoff-on-demand:2011" in self.xml.get('profiles', ''):
                 self.mode = 'odvod'
             else:
                 self.mode = 'vod'
